@@ -808,6 +808,23 @@ func (g *gen) configEntry() (structs.ConfigEntry, string) {
 	}
 }
 
+// cfgSvcNames: service names a gateway config entry links (for the case-folding flag only)
+func cfgSvcNames(e structs.ConfigEntry) (out []string) {
+	switch c := e.(type) {
+	case *structs.TerminatingGatewayConfigEntry:
+		for _, s := range c.Services {
+			out = append(out, s.Name)
+		}
+	case *structs.IngressGatewayConfigEntry:
+		for _, l := range c.Listeners {
+			for _, s := range l.Services {
+				out = append(out, s.Name)
+			}
+		}
+	}
+	return
+}
+
 func (g *gen) configEntryOp() (entry, bool) {
 	r := g.r
 	e, d := g.configEntry()
@@ -823,7 +840,8 @@ func (g *gen) configEntryOp() (entry, bool) {
 		e.GetRaftIndex().ModifyIndex = g.casIndex()
 	}
 	req := structs.ConfigEntryRequest{Datacenter: "dc1", Op: op, Entry: e}
-	return entry{data: enc(structs.ConfigEntryRequestType, &req), kind: "config-entry", desc: fmt.Sprintf("config %s %s cas=%d", op, d, e.GetRaftIndex().ModifyIndex)}, true
+	return entry{data: enc(structs.ConfigEntryRequestType, &req), kind: "config-entry", desc: fmt.Sprintf("config %s %s cas=%d", op, d, e.GetRaftIndex().ModifyIndex),
+		svcNames: cfgSvcNames(e)}, true
 }
 
 func (g *gen) intention() entry {
